@@ -111,7 +111,10 @@ Definition visit_e (e : expr) (x : st) : st :=
   | EIdent id => visit_ident id x
   | ECall id => visit_lit (visit_ident id x)
   | ELit => visit_lit x
+  | EThis => x
   end.
+(* the test of a switch case (fn visit_switch_case, first line): visited in the scope of the switch *)
+Definition visit_test (t : option expr) (x : st) : st := match t with Some e => visit_e e x | None => x end.
 Definition visit_cond (c : cond) (x : st) : st :=
   match c with COpaque e => visit_e e x | CTrue | CFalse => visit_lit x end.
 Definition known_true (c : cond) : bool := match c with CTrue => true | _ => false end.
@@ -297,7 +300,6 @@ Definition case_end_of (cs : scope) : End :=
   | None => match s_end cs with Some (Forced r t i) => Forced r t i | _ => EContinue end
   end.
 
-Definition is_none {A} (o : option A) : bool := match o with None => true | Some _ => false end.
 
 (* fn with_child_scope(kind, start, op) *)
 Definition with_child (k : kind) (start : N) (op : st -> st) (x : st) : st :=
@@ -439,7 +441,7 @@ with an_list (l : stmts) (y : st) {struct l} : st :=
 with an_cases (cs : cases) (y : st) {struct cs} : st :=
   match cs with
   | CNil => y
-  | CCons cp _ _ cns r => an_cases r (visit_case cp (an_list cns) y)
+  | CCons cp t _ cns r => an_cases r (visit_case cp (an_list cns) (visit_test t y))
   end.
 
 (* A function-like body analysed in a fresh Function scope (fn visit_function /
